@@ -277,6 +277,27 @@ func (sc *c20Scenario) Check(res *simrt.Result) []Violation {
 			add("mark-done", "invoked-after-done", fmt.Sprintf("Call%v began after MarkDone returned but invoked the function; %s", cl.block, invs))
 		}
 	}
+	// MarkDone freezes the CurryDef: when it is called from inside fn (under the Call mutex) no
+	// further invocation may ever start; when it is called from another thread at most the one
+	// Call that already holds the mutex may still invoke fn after MarkDone returned.
+	if sc.doneRt != 0 {
+		for i, in := range sc.invs {
+			if in.at > sc.doneRt {
+				add("mark-done", "invocation-after-MarkDone-from-inside-fn", fmt.Sprintf("invocation %d started after MarkDone (called from inside invocation %d) had returned; %s", i, sc.DoneInside-1, invs))
+				break
+			}
+		}
+	} else if sc.done != nil && sc.done.Returned {
+		n := 0
+		for _, in := range sc.invs {
+			if in.at > sc.done.Ret {
+				n++
+			}
+		}
+		if n >= 2 {
+			add("mark-done", "several-invocations-after-MarkDone-returned", fmt.Sprintf("%d invocations started after MarkDone had returned (only the Call holding the mutex at that moment may still run); %s", n, invs))
+		}
+	}
 	// Result
 	if len(sc.invs) > 0 && len(sc.final) > 0 {
 		last := sc.invs[len(sc.invs)-1].ret
